@@ -41,7 +41,7 @@ import numpy as np
 import refs
 from common import Ctx, DriverReject, InfraError
 
-NONSQUARE = os.environ.get("C10_NONSQUARE", "0") == "1"
+NONSQUARE = os.environ.get("C10_NONSQUARE", "1") == "1"  # D2/D3/D7 are repaired: on by default
 
 # ---------------------------------------------------------------------------------------------
 # helpers
